@@ -1527,7 +1527,6 @@ func C09Check(e *C09Exp, in, out *C09Obs, localAddr netip.Addr) []C09Mismatch {
 	return mm
 }
 
-
 // C09PartialCount: unknown optional transitive attributes passed on with / without the Partial bit (RFC 4271 5
 // asks for the bit; the property does not mention it, so this is only counted).
 func C09PartialCount(out *C09Obs) (set, unset int) {
